@@ -930,6 +930,38 @@ example : Zoned.cmp ⟨⟨dateOfYo 2024 1, ⟨0, 0⟩⟩, 86399⟩ ⟨⟨dateOfY
     Zoned.partial_cmp ⟨NaiveDT.MAX, -86399⟩ ⟨NaiveDT.MIN, 86399⟩ = some 1 ∧
     Zoned.eq ⟨⟨dateOfYo 2024 1, ⟨0, 0⟩⟩, 3600⟩ ⟨⟨dateOfYo 2024 1, ⟨0, 0⟩⟩, -3600⟩ = true := by decide +kernel
 
+/-- fused: once `next` (`next_back`) has returned `None` it returns `None` on every further call — the
+refused call leaves the cursor where it was (`FusedIterator`) -/
+theorem iter_fused (v : Date) (k : Nat) :
+    (DaysIter.next v = .ok none →
+      runScript DaysIter.next DaysIter.next_back (List.replicate k false) v = .ok (List.replicate k none)) ∧
+    (DaysIter.next_back v = .ok none →
+      runScript DaysIter.next DaysIter.next_back (List.replicate k true) v = .ok (List.replicate k none)) ∧
+    (WeeksIter.next v = .ok none →
+      runScript WeeksIter.next WeeksIter.next_back (List.replicate k false) v = .ok (List.replicate k none)) ∧
+    (WeeksIter.next_back v = .ok none →
+      runScript WeeksIter.next WeeksIter.next_back (List.replicate k true) v = .ok (List.replicate k none)) :=
+  ⟨fun h => fused_fwd _ _ v h k, fun h => fused_back _ _ v h k,
+   fun h => fused_fwd _ _ v h k, fun h => fused_back _ _ v h k⟩
+
+example : DaysIter.next Date.MAX = .ok none ∧ WeeksIter.next_back (dateOfYo (-262143) 7) = .ok none ∧
+    runScript DaysIter.next DaysIter.next_back [false, false, false] Date.MAX = .ok [none, none, none] := by
+  decide +kernel
+
+/-- the order of zone-aware values for ALL valid operands, leap-second representations included:
+lexicographic on (whole seconds since the epoch, nanosecond field) — for non-leap operands this is
+the order of instants (`zoned_cmp_instant_order`); a leap-second representation `:59.1xxxxxxxxx`
+sorts after every `:59.0…` and before `:00` of the next minute -/
+theorem zoned_cmp_general (a b : Zoned) (ha : NDTInv a.utc) (hb : NDTInv b.utc) :
+    Zoned.cmp a b =
+      sgn ((instSecs a.utc - instSecs b.utc) * 2000000000 + (a.utc.time.frac - b.utc.time.frac)) ∧
+    NaiveDT.cmp a.utc b.utc = Zoned.cmp a b :=
+  ⟨dt_cmp_general a.utc b.utc ha hb, rfl⟩
+
+example : Zoned.cmp ⟨⟨dateOfYo 2016 366, ⟨86399, 1500000000⟩⟩, 0⟩ ⟨⟨dateOfYo 2017 1, ⟨0, 0⟩⟩, 3600⟩ = -1 ∧
+    Zoned.cmp ⟨⟨dateOfYo 2016 366, ⟨86399, 1500000000⟩⟩, 0⟩ ⟨⟨dateOfYo 2016 366, ⟨86399, 999999999⟩⟩, 0⟩ = 1 := by
+  decide +kernel
+
 /-! ### range ends -/
 
 /-- `DateTime<FixedOffset>` at the range ends: whatever the offset (even when the wall-clock reading
